@@ -54,6 +54,45 @@ def siteModule (file arg : String) : String :=
     | _ => first
   else first
 
+/-! ### a chain of ante decorators (`sdk.ChainAnteDecorators`): each decorator rejects, hands on to the next one, or
+- the shape `Gen.App.anteEarlyAccepts` lists - returns success itself without calling `next` -/
+
+inductive Verdict | reject | next | acceptEarly
+deriving DecidableEq, Repr
+
+/-- (accepted?, number of decorators that ran) -/
+def runChain {α : Type} : List (α → Verdict) → α → Bool × Nat
+  | [], _ => (true, 0)
+  | d :: ds, tx =>
+    match d tx with
+    | .reject => (false, 1)
+    | .acceptEarly => (true, 1)
+    | .next => let r := runChain ds tx; (r.1, r.2 + 1)
+
+/-- in a chain none of whose decorators accepts early, an accepted transaction has passed EVERY decorator -/
+theorem accepted_passed_all {α : Type} (ds : List (α → Verdict)) (tx : α)
+    (h : ∀ d ∈ ds, d tx ≠ .acceptEarly) (hacc : (runChain ds tx).1 = true) :
+    (runChain ds tx).2 = ds.length ∧ ∀ d ∈ ds, d tx = .next := by
+  induction ds with
+  | nil => simp [runChain]
+  | cons d ds ih =>
+    have hd := h d (List.mem_cons_self ..)
+    unfold runChain at hacc ⊢
+    cases hv : d tx with
+    | reject => simp [hv] at hacc
+    | acceptEarly => exact absurd hv hd
+    | next =>
+      simp only [hv] at hacc ⊢
+      have := ih (fun d' hd' => h d' (List.mem_cons_of_mem _ hd')) hacc
+      refine ⟨by simp [this.1], ?_⟩
+      intro d' hd'
+      rcases List.mem_cons.mp hd' with e | e
+      · exact e ▸ hv
+      · exact this.2 d' e
+
+/-- with an early accept the rest of the chain does not run -/
+example : runChain [fun (_ : Nat) => Verdict.next, fun _ => .acceptEarly, fun _ => .reject] 0 = (true, 2) := by decide
+
 theorem before_irrefl_example : before ["a", "b", "c"] "a" "c" = true ∧ before ["a", "b", "c"] "c" "a" = false ∧
     before ["a", "b", "a"] "a" "b" = false := by decide
 
